@@ -616,3 +616,9 @@ pub fn fresh<K: BoolKind>(n: u32, order: &[u32], nodes: usize, cache: usize, thr
     assert_eq!(got, order, "harness: initial order could not be established");
     mref
 }
+
+/// `cfg(oxidd_verif)` hook of oxidd-reorder: make `set_var_order` take the concurrent bubble sort /
+/// parallel level update regardless of the diagram size (it is otherwise only used from 65536 nodes on)
+pub fn force_concurrent_reorder(on: bool) {
+    oxidd_reorder::VERIF_FORCE_CONCURRENT.store(on, std::sync::atomic::Ordering::Relaxed);
+}
